@@ -16,7 +16,7 @@ func init() {
 			"(checkpoint-fields) every field of the checkpoint struct is written at a save site and read on the resume path; Channels/Inputs/State/SkipPreHandler at both save sites; " +
 			"(channel-state) every mutable field of every channel implementation is exported, copied by load, and the persisted types are registered with the serializer; " +
 			"(convert-restore-order) save sites convert before storing/returning; both restore arms run restoreCheckPoint -> loadChannels -> restoreTasks; " +
-			"(wait-all-before-save) interrupt handlers reached after a submit are dominated by waitAll, and the sub-graph/rerun handler receives both the first completed batch and the drained batch; " +
+			"(wait-all-before-save) interrupt handlers reached after a submit are dominated by waitAll; every batch of completed tasks is resolved exactly once — handed to the sub-graph/rerun handler iff no calculateNextTasks call has consumed it before — and what calculateNextTasks computed is handed to the handler; " +
 			"(skip-prehandler) task.skipPreHandler is written only by restoreTasks from the checkpoint and is the only reason submit skips a pre-handler; " +
 			"(nested-once) the nested checkpoint is forwarded only by restoreTasks; freshly created tasks get a context with the checkpoint cleared; " +
 			"(stream-pairs-set) every stream<->value converter pair installed in the checkpointer's tables is read from a field that is written somewhere (NEVER-WRITTEN rule: a never-assigned pair is two nil functions); " +
@@ -59,6 +59,81 @@ func runC05(w *World, r *Report) {
 	// ---- stream-pairs-set: the stream<->value converters the checkpointer uses are real functions
 	r.Rule("C05.stream-pairs-set", "every streamConvertPair handed to the checkpointer comes from a field that is written somewhere (a never-written pair is two nil functions: converting a pending stream for the checkpoint panics)", 3)
 	streamPairsSetChecks(w, r, "C05.stream-pairs-set")
+
+	// ---- a node's interrupt request is recognised through any wrapping (a missed request is an ordinary failure: no checkpoint, nothing to resume)
+	r.Rule("C05.rerun-request-recognised", "InterruptAndRerun is matched with errors.Is wherever task errors are classified", 2)
+	sentinelMatchChecks(w, r, "C05.rerun-request-recognised")
+
+	// ---- typed nil pointers in state / pending inputs keep their pointer depth through the byte store
+	r.Rule("C05.codec-pointer-depth", "the checkpoint serialiser counts every pointer level it peels, the nil level included (shared with C12)", 1)
+	pointerDepthCheck(w, r, "C05.codec-pointer-depth")
+
+	// ---- tasks whose inputs were already taken out of the channels are saved
+	r.Rule("C05.computed-tasks-saved", "handleInterrupt is handed every task list computed before it (shared with C03)", 2)
+	computedTasksKept(w, r, "C05.computed-tasks-saved")
+
+	// ---- an empty pending stream round-trips as an empty stream
+	r.Rule("C05.empty-stream-roundtrip", "defaultStreamConvertPair: an empty stream is saved as nil and nil is restored as an EMPTY stream (no chunk the uninterrupted run never delivered)", 2)
+	{
+		dsp := w.Fn("compose", "defaultStreamConvertPair")
+		var concat, restore *ssa.Function
+		for _, a := range dsp.AnonFuncs {
+			if a.Signature.Params().Len() == 1 {
+				if _, isIface := a.Signature.Params().At(0).Type().Underlying().(*types.Interface); isIface && a.Signature.Params().At(0).Type().String() != "any" && a.Signature.Params().At(0).Type().String() != "interface{}" {
+					concat = a
+				} else {
+					restore = a
+				}
+			}
+		}
+		if concat == nil || restore == nil {
+			undecidedf("C05.empty-stream-roundtrip: the two literals of defaultStreamConvertPair not identified")
+		}
+		// save: emptyStreamConcatErr -> (nil, nil)
+		okSave := false
+		instrs(concat, func(in ssa.Instruction) {
+			ret, ok := in.(*ssa.Return)
+			if !ok || !isNilConst(ret.Results[0]) || !isNilConst(ret.Results[1]) {
+				return
+			}
+			if hasGuard(ret.Block(), func(g guard) bool {
+				c, ok := g.cond.(*ssa.Call)
+				return ok && g.pol && calleeFullName(c) == "errors.Is"
+			}) {
+				okSave = true
+			}
+		})
+		r.Check(okSave, "C05.empty-stream-roundtrip", "concatStream: empty stream saved as nil", concat.Pos(), "errors.Is(err, emptyStreamConcatErr) -> (nil, nil)", "an empty pending stream is not saved as the nil marker")
+		// restore: on the a == nil arm the array handed to StreamReaderFromArray has length 0
+		okRestore, seen := false, false
+		instrs(restore, func(in ssa.Instruction) {
+			c, ok := in.(*ssa.Call)
+			if !ok {
+				return
+			}
+			f, ok := c.Call.Value.(*ssa.Function)
+			if !ok || origin(f).Name() != "StreamReaderFromArray" {
+				return
+			}
+			if !hasGuard(c.Block(), func(g guard) bool {
+				return guardIsNil(g, func(v ssa.Value) bool { _, isP := v.(*ssa.Parameter); return isP })
+			}) {
+				return
+			}
+			seen = true
+			if sl, ok := c.Call.Args[0].(*ssa.Slice); ok {
+				if al, ok := sl.X.(*ssa.Alloc); ok {
+					if at, ok := deref(al.Type()).Underlying().(*types.Array); ok && at.Len() == 0 {
+						okRestore = true
+					}
+				}
+			}
+			if cst, ok := c.Call.Args[0].(*ssa.Const); ok && cst.Value == nil {
+				okRestore = true
+			}
+		})
+		r.Check(seen && okRestore, "C05.empty-stream-roundtrip", "restoreStream: nil restored as an empty stream", restore.Pos(), "a == nil -> StreamReaderFromArray of a zero-length slice", "a checkpointed nil (empty stream at the interrupt point) is restored as a stream that holds a chunk: in the stream paradigms the resumed node receives a chunk the uninterrupted run never delivered")
+	}
 
 	// ---- pair-table-typing: the table that converts channel contents is typed like the channel contents
 	r.Rule("C05.pair-table-typing", "the stream<->value pair used for a value pending in a channel is typed like that value: values are stored AFTER the edge handlers ran, so a pair taken from the sender's declared output type is wrong on edges whose handlers retype the stream (field mappings)", 1)
@@ -269,7 +344,6 @@ func runC05(w *World, r *Report) {
 	r.Rule("C05.wait-all-before-save", "interrupt handlers after a submit are dominated by waitAll; the sub-graph/rerun handler gets first batch + drained batch", 3)
 	submit := w.Fn("compose", "taskManager.submit")
 	waitAll := w.Fn("compose", "taskManager.waitAll")
-	wait := w.Fn("compose", "taskManager.wait")
 	subs := callsTo(run, submit)
 	was := callsTo(run, waitAll)
 	for _, h := range []*ssa.Function{hInt, hSub} {
@@ -294,21 +368,10 @@ func runC05(w *World, r *Report) {
 				}
 			}
 			r.Check(dom, "C05.wait-all-before-save", construct+" after waitAll", c.Pos(), "all running tasks are collected before the checkpoint is assembled", "a checkpoint is assembled while tasks are still running (their results are lost)")
-			if h == hSub && dom {
-				arg := c.Common().Args[paramIndex(hSub, "completeTasks")]
-				fromWait, fromAll := false, false
-				for _, wc := range callsTo(run, wait) {
-					if e := extractOf(wc, 0); e != nil && flowsTo(e, arg) {
-						fromWait = true
-					}
-				}
-				if e := extractOf(domWA, 0); e != nil && flowsTo(e, arg) {
-					fromAll = true
-				}
-				r.Check(fromWait && fromAll, "C05.wait-all-before-save", construct+" receives all completed tasks", c.Pos(), "append(completedTasks, drained...)", "tasks completed before the drain (or the drained ones) are not folded into the checkpoint: their successors are lost on resume")
-			}
+			_ = domWA
 		}
 	}
+	completedOnce(w, r, "C05.wait-all-before-save")
 
 	// the non-interrupted completed tasks are folded into the channels (values AND dependencies) before the checkpoint is built
 	{
@@ -565,4 +628,84 @@ func pairTableTypingCheck(w *World, r *Report, rule string) {
 		return
 	}
 	r.OK(rule, construct, gcompile.Pos(), fmt.Sprintf("not all of: per-sender table=%v, channels store handler results=%v, retyping handler=%q installed=%v", perSender, storesHandled, retypes, installed))
+}
+
+// completedOnce: in runner.run every batch of completed tasks (a result of taskManager.wait / waitAll) is resolved
+// exactly once. For each call H of the sub-graph/rerun interrupt handler and each batch L collected before it:
+// L is part of H's completeTasks argument iff no calculateNextTasks call that dominates H already consumed L
+// (resolving a batch twice re-evaluates branches and overwrites the freshly reset channels with a partial set of
+// values; not resolving it loses it). The tasks such a calculateNextTasks call computed must reach H as well.
+func completedOnce(w *World, r *Report, rule string) {
+	run := w.Fn("compose", "runner.run")
+	hSub := w.Fn("compose", "runner.handleInterruptWithSubGraphAndRerunNodes")
+	cnt := w.Fn("compose", "runner.calculateNextTasks")
+	wait := w.Fn("compose", "taskManager.wait")
+	waitAll := w.Fn("compose", "taskManager.waitAll")
+	ci := paramIndex(hSub, "completeTasks")
+	cti := paramIndex(cnt, "completedTasks")
+	type batch struct {
+		call ssa.CallInstruction
+		val  ssa.Value
+		name string
+	}
+	var batches []batch
+	for i, c := range callsTo(run, wait) {
+		if e := extractOf(c, 0); e != nil {
+			batches = append(batches, batch{c, e, fmt.Sprintf("wait #%d", i+1)})
+		}
+	}
+	for i, c := range callsTo(run, waitAll) {
+		if e := extractOf(c, 0); e != nil {
+			batches = append(batches, batch{c, e, fmt.Sprintf("waitAll #%d", i+1)})
+		}
+	}
+	n := 0
+	for hi, h := range callsTo(run, hSub) {
+		arg := h.Common().Args[ci]
+		for _, b := range batches {
+			if !instrDominates(b.call, h) {
+				continue
+			}
+			n++
+			consumedBy := -1
+			for k, c := range callsTo(run, cnt) {
+				if instrDominates(c, h) && derivesFrom(c.Common().Args[cti], b.val) {
+					consumedBy = k + 1
+				}
+			}
+			given := derivesFrom(arg, b.val)
+			construct := fmt.Sprintf("runner.run: sub-graph/rerun interrupt #%d and the batch of %s", hi+1, b.name)
+			switch {
+			case consumedBy < 0 && given:
+				r.OK(rule, construct, h.Pos(), "not yet resolved: handed to the handler")
+			case consumedBy > 0 && !given:
+				r.OK(rule, construct, h.Pos(), fmt.Sprintf("already resolved by calculateNextTasks #%d: not handed to the handler again", consumedBy))
+			case consumedBy < 0 && !given:
+				r.Fail(rule, construct, h.Pos(), "a batch of completed tasks is neither resolved by calculateNextTasks nor handed to the interrupt handler: their outputs and their successors are lost on resume")
+			default:
+				r.Fail(rule, construct, h.Pos(), fmt.Sprintf("the batch was already resolved by calculateNextTasks #%d (values written, ready successors taken out of their channels, channels reset) and is handed to the interrupt handler again: it is resolved a second time into the reset channels — a joined successor keeps only part of its inputs and the resumed run ends with 'no tasks to execute' (eager mode, depends on completion order)", consumedBy))
+			}
+		}
+		// tasks computed before this interrupt are saved
+		for k, c := range callsTo(run, cnt) {
+			if !instrDominates(c, h) {
+				continue
+			}
+			n++
+			e := extractOf(c, 0)
+			kept := false
+			if e != nil {
+				for _, a := range h.Common().Args {
+					if derivesFrom(a, e) {
+						kept = true
+					}
+				}
+			}
+			r.Check(kept, rule, fmt.Sprintf("runner.run: sub-graph/rerun interrupt #%d keeps the tasks of calculateNextTasks #%d", hi+1, k+1), h.Pos(), "the computed tasks are handed to the handler (saved as pending inputs)",
+				"the tasks computed by a calculateNextTasks call before this interrupt are dropped: their inputs were already taken out of the channels and are in neither the checkpoint's channels nor its pending inputs")
+		}
+	}
+	if n < 3 {
+		undecidedf("%s: only %d (batch / computed tasks, handler call) pairs in run (floor 3)", rule, n)
+	}
 }
